@@ -327,3 +327,103 @@ Theorem C15_source_alphabetic_bijective render n fuel sf fb rest (l : list B.psy
     (fun _ => False).
 Proof. exact (G.gen_alphabetic_bijective render n fuel sf fb rest l v). Qed.
 Print Assumptions C15_source_alphabetic_bijective.
+
+(* ---------------------------- source, second pass: the rest of render_value after the `extends` resolution *)
+(* gen/GenCounters.v also holds, regenerated on every run, the branches `system == 'symbolic'` (rv_symbolic_body) and
+   `system == 'additive'` (rv_additive_body: both loops - the second one `for .. break`, printed with the flag "%brk"
+   of tools/py2coq.py for_with_break - and the closing `if initial is None: .. return self.render_value(.. fallback ..)`)
+   and the statements after the chain on `system` (rv_finish_body: the assertion, the pad descriptor, the negative
+   prefix / suffix, `return initial`) and before it: step 2 (rv_range_body) and, from `initial = None` on, the head of
+   step 3 (rv_neg_body): with the first pass, every statement of render_value after the `while extends:` loop.  `str * int`, `[s] * n`, `str + str`, len of a string are the primitives
+   PSeqMul / PSeqAdd / PSeqLen of base/Py.v.  For EVERY tuple of symbols / of (weight, symbol) pairs (or None), every
+   integer value, both flags, every pad descriptor and pair of negative symbols they compute [represent] / [finish]
+   of model/C15Style.v, so C15_symbolic_repeat, C15_additive_sums_to_value, C15_additive_total_with_unit,
+   C15_additive_representation, C15_negative_wrapping, C15_pad_length above speak about the source text. *)
+Require WV.proofs.C15_gen_symbolic WV.proofs.C15_gen_additive WV.proofs.C15_gen_finish WV.proofs.C15_gen_rest.
+Module GA := WV.proofs.C15_gen_additive.
+Module GF := WV.proofs.C15_gen_finish.
+Module GR := WV.proofs.C15_gen_rest.
+Require WV.proofs.C15_gen_neg.
+Module GNg := WV.proofs.C15_gen_neg.
+
+Theorem C15_source_symbolic_branch render n fuel sf fb rest osyms c fx v :
+  c_symbols c = B.msyms osyms ->
+  Py.run (G.c15_ops render (S n) fuel) GenCounters.rv_symbolic_body
+    [("self"%string, Py.VObj sf); ("counter"%string, B.vcounter osyms fb rest); ("counter_value"%string, Py.vint v)]
+    (GN.agrees (G.c15_ops render (S n) fuel) (B.rv_args (Py.VObj sf) v "decimal" Py.VNone) []
+               (represent c "symbolic" fx v))
+    (GN.raises (G.c15_ops render (S n) fuel) (B.rv_args (Py.VObj sf) v "decimal" Py.VNone) []
+               (represent c "symbolic" fx v)).
+Proof. exact (GR.gen_symbolic_linked render n fuel sf fb rest osyms c fx v). Qed.
+Print Assumptions C15_source_symbolic_branch.
+
+(* the additive branch; GA.base: self, counter = {'symbols': sy, 'fallback': fb, 'additive_symbols': oadd, ..rest},
+   counter_value = v, initial = None, is_negative = neg, previous_types = pl.  Without a representation it returns the
+   call of the FALLBACK style with the list previous_types and the counter value negated back (the number 0 - v)
+   when is_negative (GA.fb_args_of) *)
+Theorem C15_source_additive_branch render n fuel sf sy fb rest pl oadd c fx v neg :
+  c_additive c = GA.madd oadd -> c_fallback c = fb -> fb <> Some ""%string ->
+  Py.run (G.c15_ops render (S n) fuel) GenCounters.rv_additive_body (GA.base sf sy fb rest pl oadd v neg Py.VNone)
+    (GN.agrees (G.c15_ops render (S n) fuel) (B.rv_args (Py.VObj sf) v "decimal" Py.VNone)
+               (GA.fb_args_of sf pl c v neg) (represent c "additive" fx v))
+    (GN.raises (G.c15_ops render (S n) fuel) (B.rv_args (Py.VObj sf) v "decimal" Py.VNone)
+               (GA.fb_args_of sf pl c v neg) (represent c "additive" fx v)).
+Proof. exact (GR.gen_additive_linked render n fuel sf sy fb rest pl oadd c fx v neg). Qed.
+Print Assumptions C15_source_additive_branch.
+
+(* steps 4 to 6; GF.finenv: counter (any dict whose 'pad' entry is opad), initial = the string of t, is_negative, and -
+   bound only when is_negative - use_negative, negative_prefix, negative_suffix.  It returns the string of
+   [finish c (is_negative && use_negative) t] and raises nothing *)
+Theorem C15_source_finish render n fuel cf opad pn ps t neg un c :
+  Py.lookup "pad" cf = GF.vpad opad -> c_pad c = GF.mpad opad ->
+  orelse (c_negative c) default_negative = (B.msym pn, B.msym ps) ->
+  Py.run (G.c15_ops render (S n) fuel) GenCounters.rv_finish_body
+    (GF.finenv cf (B.enc t) neg un (B.psym_str pn) (B.psym_str ps))
+    (fun _ r => r = Some (Py.VStr (B.enc (finish c (neg && un) t)))) (fun _ => False).
+Proof. exact (GR.gen_finish_linked render n fuel cf opad pn ps t neg un c). Qed.
+Print Assumptions C15_source_finish.
+
+(* step 2, the range test (rv_range_body: from the statement that binds counter_ranges up to `initial = None`).
+   GRg.renv0: self, counter (a dict whose 'range' entry is orange: None or a tuple of 'auto' / (low, high) pairs, an
+   infinite bound being the number M or its opposite; 'fallback' = fb), counter_value = v, system = sys,
+   previous_types = pl, and inf = M: the module-level name `inf` is an input of the slice, any number above |v|.
+   The slice does what [check_ranges (ranges_of c sys) v] says: in range (RgIn) it falls off its end with
+   counter_value, counter, system, self, previous_types unchanged (GRg.range_post); out of range (RgOut) the
+   `else:` clause of the loop returns the call of the FALLBACK style with the same value and previous_types; it
+   raises only what that call raises.  (The anonymous styles' range, the string 'auto' itself, is outside: `in` on a
+   string is not in the embedding.) *)
+Require WV.proofs.C15_gen_range.
+Module GRg := WV.proofs.C15_gen_range.
+Theorem C15_source_range_test render n fuel sf sy ad pd ng fb rest pl M v orange c sys :
+  (QArith_base.Qlt (QArith_base.inject_Z (Z.abs v)) M) -> c_range c = GRg.mrange orange -> c_fallback c = fb ->
+  fb <> Some ""%string ->
+  Py.run (G.c15_ops render (S n) fuel) GenCounters.rv_range_body (GRg.renv0 sf sy ad pd ng fb rest pl M v orange sys)
+    (GRg.range_obs (G.c15_ops render (S n) fuel) sf sy ad pd ng fb rest pl M v orange
+       (B.rv_args (Py.VObj sf) v (fallback_of c) (Py.VList pl)) (check_ranges (ranges_of c sys) v) sys)
+    (GRg.range_err (G.c15_ops render (S n) fuel)
+       (B.rv_args (Py.VObj sf) v (fallback_of c) (Py.VList pl)) (check_ranges (ranges_of c sys) v)).
+Proof. exact (GR.gen_range_linked render n fuel sf sy ad pd ng fb rest pl M v orange c sys). Qed.
+Print Assumptions C15_source_range_test.
+
+(* the model's range check never meets the `auto` keyword inside the list it iterates: the third case of
+   GRg.range_obs / range_err (False) is never the one in force *)
+Theorem C15_source_range_never_raises v c sys : check_ranges (ranges_of c sys) v <> RgExc.
+Proof. exact (GRg.ranges_of_never_raises v c sys). Qed.
+Print Assumptions C15_source_range_never_raises.
+
+(* the head of step 3, from `initial = None` up to the chain on `system` (rv_neg_body); GNg.nenv0: counter (a dict whose
+   'negative' entry is oneg: a pair of symbols or None), counter_value = v, system = sys.  It ends with
+   GNg.neg_post: initial = None, is_negative = (v < 0), counter_value = |v| exactly when v < 0 and the system uses a
+   negative sign, and - when v < 0 - use_negative = uses_negative sys, negative_prefix / negative_suffix = the strings
+   of the symbols of oneg, '-' and '' for None (GNg.neg_syms_model: those of `orelse (c_negative c) default_negative`,
+   the pair [finish] wraps with) *)
+Theorem C15_source_negative_head render n fuel sy fbv ad pd oneg rest v sys :
+  Py.run (G.c15_ops render (S n) fuel) GenCounters.rv_neg_body (GNg.nenv0 sy fbv ad pd oneg rest v sys)
+    (fun rho r => r = None /\ GNg.neg_post sy fbv ad pd oneg rest v sys rho) (fun _ => False).
+Proof. exact (GR.gen_neg_linked render n fuel sy fbv ad pd oneg rest v sys). Qed.
+Print Assumptions C15_source_negative_head.
+
+(* ... and [finish] is steps 4-5 of the specification (model/C15StyleSpec.v, written from CSS Counter Styles 3) *)
+Theorem C15_source_finish_is_spec c use t : finish c use t = spec_finish c use t.
+Proof. exact (GR.finish_is_spec c use t). Qed.
+Print Assumptions C15_source_finish_is_spec.
